@@ -168,6 +168,38 @@ Theorem default_fuel_suffices_up_to_7_offers : T 7 < default_fuel.
 Proof. exact default_fuel_enough. Qed.
 Print Assumptions default_fuel_suffices_up_to_7_offers.
 
+(* HISTORIES (queries interleaved with ABCMeta.register — new tables — and register_offer): the function the
+   correspondence evaluates, [hrun], satisfies the law at EVERY query of EVERY history, each query being judged
+   against the state current when it is asked ([hlaw] threads the state from the operations alone) *)
+Theorem history_satisfies_law_except_specificity :
+  forall fuel ops st i, answered (hrun fuel st ops) ->
+    forall c, In c (hlaw i st (hrun fuel st ops)) -> exists j, c = (100 * j + 6)%Z.
+Proof. exact hrun_law_except_specificity. Qed.
+Print Assumptions history_satisfies_law_except_specificity.
+
+Theorem history_satisfies_law_when_comparable :
+  forall fuel ops st i, answered (hrun fuel st ops) -> hcomparable st ops -> hlaw i st (hrun fuel st ops) = [].
+Proof. exact hrun_law_when_comparable. Qed.
+Print Assumptions history_satisfies_law_when_comparable.
+
+(* and every query of a history whose registry never exceeds k offers is answered when fuel > T k *)
+Theorem history_is_answered_with_enough_fuel :
+  forall fuel k, T k < fuel -> forall ops st, offers_bounded k st ops -> answered (hrun fuel st ops).
+Proof. exact hrun_answered. Qed.
+Print Assumptions history_is_answered_with_enough_fuel.
+
+(* Non-vacuity: the adaptation fails, ABCMeta.register makes the source provide the from-protocol, then it succeeds;
+   an offer is registered and a shorter answer appears *)
+Example history_nontrivial :
+  let t := true in let f := false in
+  let st := mkH [[t;f;f]; [f;t;f]; [f;f;t]] [[0]; [1]; [2]] [(0, 2, FAlways)] in
+  let ops := [HQuery (1, 2, f, ApiAdaptDefault); HTables [[t;f;f]; [t;t;f]; [f;f;t]] [[0]; [1]; [2]];
+              HQuery (1, 2, f, ApiAdaptDefault); HOffer (1, 2, FAlways); HQuery (1, 2, f, ApiAdapt)] in
+  map snd (hrun default_fuel st ops)
+  = [Some (OValue VDefault); None; Some (OValue (VAdapter [mk_offer_ 0 0 2])); None; Some (OValue (VAdapter [mk_offer_ 1 1 2]))]
+  /\ hlaw 0%Z st (hrun default_fuel st ops) = [].
+Proof. vm_compute. split; reflexivity. Qed.
+
 (* Non-vacuity: a cyclic offer graph with a failing conditional factory on the short route; the search
    returns the 3-step detour, which is valid, succeeds and is complete. *)
 Example search_nontrivial :
